@@ -443,6 +443,7 @@ type Contract struct {
 	Extern         bool // assumed contract on a dependency
 	Trusted        bool // in-repo function whose body is not verified (listed)
 	AssumeEnsures  bool
+	Forbids        map[string]bool // "forbids <callee>...": the function never (reachably) calls these
 	AssumedClauses map[string]bool // "assumed <clause-name>...": these ensures clauses are definitions/assumptions, not proved
 	File           string
 	Requires       []Clause
@@ -716,6 +717,16 @@ func (S *Specs) LoadFile(path string, extern bool) error {
 			cur.NoReturn = true
 		case "trusted":
 			cur.Trusted = true
+		case "forbids":
+			if cur == nil {
+				return fail(fmt.Errorf("forbids outside func"))
+			}
+			if cur.Forbids == nil {
+				cur.Forbids = map[string]bool{}
+			}
+			for _, n := range strings.Fields(strings.ReplaceAll(rest, ",", " ")) {
+				cur.Forbids[n] = true
+			}
 		case "assumed":
 			if cur == nil {
 				return fail(fmt.Errorf("assumed outside func"))
